@@ -71,13 +71,24 @@ type stepBind struct {
 // Call the function with the arguments provided.
 func (f *Do) Call(s *slip.Scope, args slip.List, depth int) (result slip.Object) {
 	slip.CheckArgCount(s, depth, f, args, 2, -1)
-	ns := s.NewScope()
+	bs := s.NewScope() // the implicit nil block, the init forms are evaluated in it
+	bs.Block = true
+	ns := bs.NewScope()
 	d2 := depth + 1
-	steps, test, rforms := setupDo(s, ns, args, d2)
+	steps, test, rforms, exit := setupDo(bs, ns, args, d2)
+	if exit != nil {
+		return loopExit(exit)
+	}
 	for {
-		if ns.Eval(test, d2) != nil {
+		tv := ns.Eval(test, d2)
+		if slip.IsExit(tv) {
+			return loopExit(tv)
+		}
+		if tv != nil {
 			for _, rf := range rforms {
-				result = ns.Eval(rf, d2)
+				if result = ns.Eval(rf, d2); slip.IsExit(result) {
+					return loopExit(result)
+				}
 			}
 			break
 		}
@@ -105,7 +116,9 @@ func (f *Do) Call(s *slip.Scope, args slip.List, depth int) (result slip.Object)
 		}
 		for _, sb := range steps {
 			if !sb.noStep {
-				sb.result = ns.Eval(sb.step, d2)
+				if sb.result = ns.Eval(sb.step, d2); slip.IsExit(sb.result) {
+					return loopExit(sb.result)
+				}
 			}
 		}
 		for _, sb := range steps {
@@ -117,7 +130,21 @@ func (f *Do) Call(s *slip.Scope, args slip.List, depth int) (result slip.Object)
 	return
 }
 
-func setupDo(s, ns *slip.Scope, args slip.List, depth int) (steps []*stepBind, test slip.Object, rforms slip.List) {
+// loopExit returns what a loop returns when one of its forms evaluates to the
+// exit object of a return-from, return, or go. A return is for the implicit
+// nil block of the loop, anything else is passed up.
+func loopExit(exit slip.Object) slip.Object {
+	if rr, ok := exit.(*slip.ReturnResult); ok && rr.Tag == nil {
+		return rr.Result
+	}
+	return exit
+}
+
+func setupDo(
+	s, ns *slip.Scope,
+	args slip.List,
+	depth int) (steps []*stepBind, test slip.Object, rforms slip.List, exit slip.Object) {
+
 	bindings, ok := args[0].(slip.List)
 	if !ok {
 		slip.TypePanic(s, depth, "do bindings", args[0], "list")
@@ -144,7 +171,11 @@ func setupDo(s, ns *slip.Scope, args slip.List, depth int) (steps []*stepBind, t
 			if 1 < len(tb) {
 				// Use the original scope to avoid using the new bindings since
 				// they are evaluated in apparent parallel.
-				ns.UnsafeLet(sym, slip.EvalArg(s, tb, 1, depth))
+				v := slip.EvalArg(s, tb, 1, depth)
+				if slip.IsExit(v) {
+					return nil, nil, nil, v
+				}
+				ns.UnsafeLet(sym, v)
 				if 2 < len(tb) {
 					sb.step = tb[2]
 					if list, ok := sb.step.(slip.List); ok {
